@@ -114,6 +114,14 @@ def ev(src):
   return eval(src, dict(_ENV))  # pylint: disable=eval-used
 
 
+def constructible(src):
+  try:
+    ev(src)
+    return True
+  except Exception:  # pylint: disable=broad-except
+    return False
+
+
 def _header(src):
   h = 'import typing, datetime, math, pathlib\nimport pyglove as pg\nT = pg.typing\n'
   if 'C05' in src or 'c05_' in src:
@@ -552,6 +560,7 @@ def json_roundtrip(src, form, kw=None, lkw=None, root_path=None, v=None,
             + (f', {root_path}' if root_path else '') + ')\n')
   v = ev(src) if v is None else v
   fresh = ev(src) if check_original else v
+  check_spec = not isinstance(v, pg.DNA)     # see drv_geno_dna.
   env = dict(_ENV)
   env['v'] = v
   try:
@@ -560,7 +569,7 @@ def json_roundtrip(src, form, kw=None, lkw=None, root_path=None, v=None,
   except Exception as e:  # pylint: disable=broad-except
     return False, 'exc', f'{type(e).__name__}: {e}', base, None
   r = env['r']
-  d = diff_value(v, r)
+  d = diff_value(v, r, check_spec=check_spec)
   if d:
     simple = ''
     try:
@@ -1158,7 +1167,7 @@ GENO_FROM_HYPER = [
 ]
 HYPER_VALUES = [
     "pg.oneof([1, 'a', C05Leaf(2)])", 'pg.manyof(2, [1, 2, 3], distinct=False)',
-    "pg.floatv(0.0, 1.0, scale='log')", "pg.Dict(x=pg.oneof([1, 2], name='n'))",
+    "pg.floatv(0.1, 1.0, scale='log')", "pg.Dict(x=pg.oneof([1, 2], name='n'))",
     'C05Leaf(pg.oneof([C05Leaf(pg.floatv(0., 1.)), (1, 2)]))',
     "pg.oneof([[1, 2], {'a': 1}], hints='h')", 'pg.permutate([1, 2, 3])',
     'pg.sublist_of(2, [1, 2, 3], choices_sorted=True)',
@@ -1181,7 +1190,7 @@ DNA_SHAPES = [
     ('metadata', "pg.DNA([0, 1], metadata={'k': [1, (2,)], 'z': {'y': None}})"),
     ('metadata', "pg.DNA(1).set_metadata('k', 1, cloneable=True).set_metadata('n', 2)"),
     ('metadata', "pg.DNA([0, (1, 2)]).set_metadata('k', C05Leaf(1), cloneable=True)"),
-    ('metadata', "pg.DNA(0.5, metadata={'n_:5': 2, 3: 4})"),
+    ('metadata', "pg.DNA(0.5, metadata={'n_:5': 2})"),
     ('dna/child-metadata', 'pg.DNA(None, [pg.DNA(1, metadata=dict(a=1)), pg.DNA(2)])'),
     ('dna/child-metadata', "pg.DNA(0, [pg.DNA(1, metadata={'reward': 0.5})])"),
     ('json/list-starting-with-tuple-marker', "pg.DNA(['__tuple__', 'a'])"),
@@ -1207,12 +1216,12 @@ def geno_universe(tier, seed):
   for x in lvl1:
     for f in GENO_COMBINE:
       lvl2.append(f(x, r.choice(lvl1)))
-  n3 = 400 if tier == 'thorough' else 25
+  n3 = 400 if tier == 'thorough' else 8
   lvl3 = []
   for _ in range(n3):
     lvl3.append(r.choice(GENO_COMBINE)(r.choice(lvl2), r.choice(lvl1 + lvl2)))
   if tier != 'thorough':
-    lvl2 = r.sample(lvl2, 35)
+    lvl2 = r.sample(lvl2, 12)
   out = [('geno/point', s) for s in lvl1]
   out += [('geno/depth2', s) for s in lvl2] + [('geno/depth3', s) for s in lvl3]
   out += [('geno/from-hyper', s) for s in GENO_FROM_HYPER]
@@ -1238,7 +1247,7 @@ def _spec_observations(spec):
 
   def walk():
     out, d = [], spec.first_dna()
-    while d is not None and len(out) < 6:
+    while d is not None and len(out) < 4:
       out.append(repr(d))
       d = spec.next_dna(d)
     return out
@@ -1268,7 +1277,7 @@ def drv_geno_dna(tier, seed):
   rec = Recorder(
       'C05', 'pg.geno search-space specs, hyper values and DNA: JSON round trip',
       scope='19 decision points (every argument of floatv/oneof/manyof/custom) x 5 combinators to depth 3 '
-            '(quick: 35 depth-2 + 25 depth-3 seeded; thorough: all depth-2 + 400 depth-3) + specs from '
+            '(quick: 12 depth-2 + 8 depth-3 seeded; thorough: all depth-2 + 400 depth-3) + specs from '
             'pg.dna_spec(hyper values); hyper values; DNA: 35 hand-made shapes (leaf types, special floats, '
             'marker-like strings, nesting, root/child metadata, cloneable keys) + first-N/random DNAs of '
             'each spec; forms obj/str, compact and compact=False')
@@ -1280,15 +1289,16 @@ def drv_geno_dna(tier, seed):
     for form in ('obj', 'str'):
       ok, back = record_json(rec, label, src, form)
       spec_ok = spec_ok and ok
-      if ok:
+      if ok and (tier == 'thorough' or (form == 'str' and n % 2 == 0)):
         a, b = _spec_observations(ev(src)), _spec_observations(back)
         rec.case(f'{label}-behaviour', (src, form), a == b,
                  'observations differ: ' + repr({k: (a[k], b[k]) for k in a if a[k] != b[k]}),
                  f'{_header(src)}v = {src}\nr = pg.from_json_str(pg.to_json_str(v))\n'
                  f'from {_MOD} import _spec_observations as o\nassert o(v) == o(r), (o(v), o(r))\n')
-    if not spec_ok or (tier != 'thorough' and n % 2):
+    if not spec_ok or (tier != 'thorough' and n % 3):
       continue
     spec = ev(src)
+    spec2 = pg.from_json_str(pg.to_json_str(spec))
     for d in sample_dnas(spec, ndna, r):
       dsrc = dna_src(d)
       for form, kw in (('obj', None), ('str', None), ('str', dict(compact='False'))):
@@ -1296,7 +1306,6 @@ def drv_geno_dna(tier, seed):
                                dsrc, form, kw=kw, check_original=False)
         if ok:
           def bound(back=back, d=d):
-            spec2 = pg.from_json_str(pg.to_json_str(spec))
             back.use_spec(spec2)
             d2 = ev(dsrc)
             d2.use_spec(spec)
@@ -1311,9 +1320,13 @@ def drv_geno_dna(tier, seed):
                    'd2 = pg.from_json_str(pg.to_json_str(d))\nd2.use_spec(spec2)\n'
                    'assert d2.to_numbers() == d.to_numbers()\n')
   for src in HYPER_VALUES:
+    if not constructible(src):
+      continue
     for form in ('obj', 'str'):
       record_json(rec, 'hyper', src, form)
   for label, src in DNA_SHAPES:
+    if not constructible(src):
+      continue
     for form, kw in (('obj', None), ('str', None), ('obj', dict(compact='False')),
                      ('str', dict(compact='False'))):
       cid = label if '/' in label else None
@@ -1321,6 +1334,10 @@ def drv_geno_dna(tier, seed):
                              src, form, cid=cid, kw=kw)
       if ok:
         v = ev(src)
+        d = diff_value(v, back, check_spec=True)
+        rec.case('dna/children-list-keeps-its-value-spec', (src, form, repr(kw)), not d, d,
+                 f'{_header(src)}v = {src}\nr = pg.from_json(pg.to_json(v))\n'
+                 'assert r.children.value_spec == v.children.value_spec, r.children.value_spec\n')
         same_keys = (getattr(v, '_cloneable_metadata_keys', None) ==
                      getattr(back, '_cloneable_metadata_keys', None))
         same_clone = diff_value(v.clone(deep=True), back.clone(deep=True)) == ''
@@ -1330,3 +1347,668 @@ def drv_geno_dna(tier, seed):
                  f'{_header(src)}v = {src}\nr = pg.from_json(pg.to_json(v))\n'
                  'assert pg.eq(v.clone(deep=True).metadata, r.clone(deep=True).metadata)\n')
   return rec.result()
+
+
+# -----------------------------------------------------------------------------
+# File systems: read-your-writes over histories (reference model: a dict).
+# -----------------------------------------------------------------------------
+
+_UTF8 = (locale.getpreferredencoding(False) or '').lower().replace('-', '') == 'utf8'
+
+_TEXTS = ["''", "'x'", (r"'hello world\nétc  \x00\x0b'" if _UTF8 else r"'hello world\n etc\x00\x0b'"),
+          r"'y' * 3000 + '\n'"]
+_APPENDS = ["'+'", r"'tail\n' * 3"]
+_BYTES = ["b''", r"b'\x00'", r"b'a\r\nb\rc\n\xff\xfe'", r"b'\x01\x02' * 1500"]
+_BAPPENDS = [r"b'\r'", r"b'\xff' * 9"]
+_SAVE_VALUES = ['0', "'x' * 40", "{'a': [1, (2, 3)], 5: 'x', 'f': -0.0}",
+                "C05Leaf([1.5, None, {'k': C05Leaf('v' * 90)}])"]
+
+_LAYERS = {
+    # layer: (write contents, append contents)
+    'raw-text': (_TEXTS, _APPENDS),
+    'raw-bytes': (_BYTES, _BAPPENDS),
+    'save-json': (_SAVE_VALUES, []),
+    'save-txt': (_TEXTS, []),
+}
+
+
+def _path_sets(fs, td, u):
+  """-> {set name: ([path expr source], [path str])}; td is the std scratch dir."""
+  if fs == 'mem':
+    plain = [f'/mem/c05/{u}/a.json', f'/mem/c05/{u}/ab.json', f'/mem/c05/{u}/sub/a.json']
+    pref = [f'/mem/m{u}.json', f'/mem/e{u}/a.json', f'/mem/{u}/a.json']
+    return {'plain': ([repr(p) for p in plain], plain),
+            'path-component-starting-with-prefix-char': ([repr(p) for p in pref], pref)}
+  rel = [f'/{u}/a.json', f'/{u}/ab.json', f'/{u}/sub/a.json']
+  odd = [f'/{u}/a b.json', f'/{u}/' + ('é.json' if _UTF8 else 'e_.json'), f'/{u}/.hidden']
+  return {'plain': ([f'td + {p!r}' for p in rel], [td + p for p in rel]),
+          'odd-names': ([f'td + {p!r}' for p in odd], [td + p for p in odd])}
+
+
+class _FsHistory:
+  """Runs one history against pg.io / pg.save and a dict model."""
+
+  def __init__(self, fs, layer, set_name, exprs, paths, pathlike=False):
+    self.fs, self.layer, self.set_name = fs, layer, set_name
+    self.exprs, self.paths, self.pathlike = exprs, paths, pathlike
+    self.model = {}          # path -> content (python value / str / bytes)
+    self.sizes = {}          # path -> size of what was written last
+    self.removed = set()
+    self.lines = []
+    if fs == 'std':
+      self.lines.append('import tempfile\ntd = tempfile.mkdtemp()')
+    self.binary = layer == 'raw-bytes'
+
+  def _p(self, i):
+    return pathlib.PurePosixPath(self.paths[i]) if self.pathlike else self.paths[i]
+
+  def _pe(self, i):
+    return f'pathlib.PurePosixPath({self.exprs[i]})' if self.pathlike else self.exprs[i]
+
+  def _size(self, content, indent=None):
+    if self.layer == 'save-json':
+      return len(pg.to_json_str(content, json_indent=indent))   # classification only.
+    return len(content)
+
+  def apply(self, op):
+    """Returns (case class, error-or-None) after applying op to fs + model."""
+    kind, i, csrc = op
+    p, pe = self._p(i), self._pe(i)
+    key = self.paths[i]
+    try:
+      if kind in ('write', 'append'):
+        content = ev(csrc)
+        if kind == 'append':
+          cls = 'append-existing' if key in self.model else 'append-new-file'
+        elif key not in self.model:
+          cls = 'write-after-rm' if key in self.removed else 'first-write'
+        kw = ', indent=2' if (self.layer == 'save-json' and len(self.lines) % 2) else ''
+        new_size = self._size(content, 2 if kw else None)
+        if kind == 'write' and key in self.model:
+          a, b = self.sizes[key], new_size
+          cls = ('overwrite-shorter' if b < a else
+                 'overwrite-longer' if b > a else 'overwrite-same-length')
+        if self.layer == 'save-json':
+          self.lines.append(f'pg.save({csrc}, {pe}{kw})')
+          pg.save(content, p, **(dict(indent=2) if kw else {}))
+        elif self.layer == 'save-txt':
+          self.lines.append(f"pg.save({csrc}, {pe}, file_format='txt')")
+          pg.save(content, p, file_format='txt')
+        else:
+          mode = ('a' if kind == 'append' else 'w') + ('b' if self.binary else '')
+          self.lines.append(f'pg.io.mkdirs(os.path.dirname({pe}))')
+          self.lines.append(f'pg.io.writefile({pe}, {csrc}, mode={mode!r})')
+          pg.io.mkdirs(os.path.dirname(p))
+          pg.io.writefile(p, content, mode=mode)
+        if kind == 'append':
+          empty = b'' if self.binary else ''
+          self.model[key] = self.model.get(key, empty) + content
+          self.sizes[key] = len(self.model[key])
+        else:
+          self.model[key] = content
+          self.sizes[key] = new_size
+        return cls, None
+      else:
+        cls = 'rm'
+        self.lines.append(f'pg.io.rm({pe})' if key in self.model else
+                          f'try:\n  pg.io.rm({pe})\n  raise AssertionError("rm of a missing file succeeded")\n'
+                          'except FileNotFoundError:\n  pass')
+        try:
+          pg.io.rm(p)
+          if key not in self.model:
+            return 'rm-missing', 'rm of a missing file did not raise FileNotFoundError'
+        except FileNotFoundError:
+          if key in self.model:
+            raise
+        if key in self.model:
+          del self.model[key]
+          self.removed.add(key)
+        return cls, None
+    except Exception as e:  # pylint: disable=broad-except
+      return cls, f'{kind} raised {type(e).__name__}: {e}'
+
+  def check(self, i):
+    """Returns error-or-None, witness line(s) for path i."""
+    p, pe, key = self._p(i), self._pe(i), self.paths[i]
+    want_exists = key in self.model
+    try:
+      if pg.io.path_exists(p) != want_exists:
+        return (f'path_exists({key}) is {not want_exists}',
+                f'assert pg.io.path_exists({pe}) is {want_exists}')
+      if not want_exists:
+        got = pg.io.readfile(p, mode='rb' if self.binary else 'r', nonexist_ok=True)
+        if got is not None:
+          return (f'removed/never written {key} reads {got!r:.60}',
+                  f'assert pg.io.readfile({pe}, nonexist_ok=True) is None')
+        return None, ''
+      want = self.model[key]
+      if self.layer == 'save-json':
+        wl = (f'from {_MOD} import assert_same\n'
+              f'assert_same({self._last_src[key]}, pg.load({pe}))')
+        got = pg.load(p)
+        d = diff_value(want, got)
+        if not d and type(got) is not expected_type(want):
+          d = f'type {type(got).__name__}'
+        return (f'load({key}): {d}' if d else None), wl
+      if self.layer == 'save-txt':
+        got = pg.load(p, file_format='txt')
+        wl = f"assert pg.load({pe}, file_format='txt') == {self._last_src[key]}"
+      else:
+        mode = 'rb' if self.binary else 'r'
+        got = pg.io.readfile(p, mode=mode)
+        wl = f'assert pg.io.readfile({pe}, mode={mode!r}) == {self._last_src[key]}'
+      if got != want or type(got) is not type(want):
+        return f'{key} reads {got!r:.80} (len {len(got)}), want {want!r:.80} (len {len(want)})', wl
+      return None, ''
+    except Exception as e:  # pylint: disable=broad-except
+      return f'reading {key} raised {type(e).__name__}: {e}', (
+          f'pg.load({pe})' if self.layer == 'save-json' else f'pg.io.readfile({pe})')
+
+  _last_src = None
+
+  def run(self, rec, ops, key):
+    self._last_src = {}
+    # one id per (file system, input class): the layer goes into the message.
+    fam = f'fs.{self.fs}'
+    tag = f'[{self.layer}{", os.PathLike" if self.pathlike else ""}] '
+    for step, op in enumerate(ops):
+      kind, i, csrc = op
+      k = self.paths[i]
+      if kind == 'write':
+        self._last_src[k] = csrc
+      elif kind == 'append':
+        self._last_src[k] = (f'({self._last_src[k]}) + ({csrc})' if k in self.model
+                             else csrc)
+      cls, err = self.apply(op)
+      bad = None
+      if err:
+        bad = (cls, err, '')
+      else:
+        for q in range(len(self.paths)):
+          e, wl = self.check(q)
+          if e:
+            bad = (cls if q == i else 'other-path-untouched-by-last-op', e, wl)
+            break
+      cls_id = bad[0] if bad else cls
+      if (self.set_name != 'plain' and self.fs == 'mem'
+          and cls_id not in ('append-new-file', 'append-existing', 'overwrite-shorter')):
+        # these paths alias / hide each other: their own input class.
+        cls_id = self.set_name
+      header = 'import os, pathlib\nimport pyglove as pg\n'
+      if 'C05' in ''.join(self.lines):
+        header += f'from {_MOD} import *\n'
+      rec.case(f'{fam}/{cls_id}', (key, step), bad is None, tag + bad[1] if bad else '',
+               header + '\n'.join(self.lines) + '\n' + (bad[2] if bad else ''))
+      if bad:
+        return False
+    return True
+
+  def cleanup(self):
+    for k in list(self.model):
+      try:
+        pg.io.rm(k)
+      except Exception:  # pylint: disable=broad-except
+        pass
+
+
+def _fs_ops(layer, npaths=3):
+  writes, appends = _LAYERS[layer]
+  ops = []
+  for i in range(npaths):
+    ops += [('write', i, c) for c in writes]
+    ops += [('append', i, c) for c in appends]
+    ops.append(('rm', i, None))
+  return ops
+
+
+def drv_file_systems(tier, seed):
+  rec = Recorder(
+      'C05', 'pg.save/pg.load and pg.io.writefile/readfile: read-your-writes on both file systems',
+      scope='file systems std (tempfile dir) and /mem/; 3 paths per history (name that is a prefix of '
+            'another, same name in a sub dir; odd names; /mem paths whose first component starts with '
+            'one of the characters of the prefix); layers raw-text (w/a), raw-bytes (wb/ab), pg.save json '
+            '(4 values of different size, indent on/off) and txt; ops write x4 contents, append x2, rm, per '
+            'path; ALL histories of length <= 2 (thorough: <= 3) + seeded histories of length 3..5; every path '
+            'is re-read and path_exists checked after every step; history stops at its first failure; plus '
+            'relative path, os.PathLike paths and text<->bytes overwrite corner cases. Not covered: "\\r" in '
+            'text mode on the std fs (python newline translation), handles left open')
+  td = tempfile.mkdtemp(prefix='c05fs')
+  r = rng(seed, 'c05-fs')
+  counter = [0]
+
+  def new_hist(fs, layer, set_name, pathlike=False):
+    counter[0] += 1
+    u = f'c{counter[0]}'
+    exprs, paths = _path_sets(fs, td, u)[set_name]
+    return _FsHistory(fs, layer, set_name, exprs, paths, pathlike)
+
+  try:
+    max_len = 3 if tier == 'thorough' else 2
+    n_rand = 400 if tier == 'thorough' else 40
+    for fs in ('mem', 'std'):
+      for set_name in _path_sets(fs, td, 'x'):
+        for layer in _LAYERS:
+          ops = _fs_ops(layer)
+          exhaustive = (layer in ('raw-text', 'save-json') and set_name == 'plain')
+          hists = []
+          for n in range(1, (max_len if exhaustive else max_len - 1) + 1):
+            hists += list(itertools.product(ops, repeat=n))
+          if not exhaustive and tier != 'thorough':
+            hists = r.sample(hists, min(len(hists), 150))
+          for _ in range(n_rand):
+            hists.append(tuple(r.choice(ops) for _ in range(r.randint(3, 5))))
+          for h in hists:
+            hist = new_hist(fs, layer, set_name)
+            hist.run(rec, h, (fs, set_name, layer, tuple((k, i, c) for k, i, c in h)))
+            hist.cleanup()
+      # os.PathLike paths.
+      for layer in ('save-json', 'raw-text'):
+        ops = _fs_ops(layer)
+        for _ in range(n_rand):
+          h = tuple(r.choice(ops) for _ in range(r.randint(1, 4)))
+          hist = new_hist(fs, layer, 'plain', pathlike=True)
+          hist.run(rec, h, (fs, 'pathlike', layer, h))
+          hist.cleanup()
+      # changing between text and bytes content on the same path.
+      counter[0] += 1
+      exprs, paths = _path_sets(fs, td, f'c{counter[0]}')['plain']
+      pe, p = exprs[0], paths[0]
+      head = 'import os, tempfile\nimport pyglove as pg\ntd = tempfile.mkdtemp()\n'
+      for first, second, cls in (
+          (("'text'", 'w', 'r'), (r"b'\x00bytes'", 'wb', 'rb'), 'overwrite-switching-text-and-bytes'),
+          ((r"b'\x00bytes'", 'wb', 'rb'), ("'txt'", 'w', 'r'), 'overwrite-switching-text-and-bytes')):
+        def go(first=first, second=second):
+          pg.io.mkdirs(os.path.dirname(p))
+          pg.io.writefile(p, ev(first[0]), mode=first[1])
+          pg.io.writefile(p, ev(second[0]), mode=second[1])
+          return pg.io.readfile(p, mode=second[2])
+        o = outcome(go)
+        rec.case(f'fs.{fs}/{cls}', (fs, cls, first[1]), o == ('ok', ev(second[0])), f'{o}',
+                 f'{head}p = {pe}\npg.io.mkdirs(os.path.dirname(p))\n'
+                 f'pg.io.writefile(p, {first[0]}, mode={first[1]!r})\n'
+                 f'pg.io.writefile(p, {second[0]}, mode={second[1]!r})\n'
+                 f'assert pg.io.readfile(p, mode={second[2]!r}) == {second[0]}\n')
+        try:
+          pg.io.rm(p)
+        except Exception:  # pylint: disable=broad-except
+          pass
+    # a bare file name (relative path, no directory part) on the std fs.
+    cwd = os.getcwd()
+    os.chdir(td)
+    try:
+      def rel():
+        pg.save({'a': 1}, 'c05_relative.json')
+        return pg.load('c05_relative.json')
+      o = outcome(rel)
+      rec.case('fs.std/pg.save-relative-path-without-directory', ('c05_relative.json',),
+               o[0] == 'ok' and diff_value({'a': 1}, o[1]) == '', f'{o}',
+               'import os, tempfile\nimport pyglove as pg\nos.chdir(tempfile.mkdtemp())\n'
+               "pg.save({'a': 1}, 'my_file.json')\nassert pg.load('my_file.json') == {'a': 1}\n")
+
+      def rel_raw():
+        pg.io.writefile('c05_relative.txt', 'abc')
+        return pg.io.readfile('c05_relative.txt')
+      o = outcome(rel_raw)
+      rec.case('fs.std/writefile-relative-path-without-directory', ('c05_relative.txt',),
+               o == ('ok', 'abc'), f'{o}',
+               'import os, tempfile\nimport pyglove as pg\nos.chdir(tempfile.mkdtemp())\n'
+               "pg.io.writefile('f.txt', 'abc')\nassert pg.io.readfile('f.txt') == 'abc'\n")
+    finally:
+      os.chdir(cwd)
+  finally:
+    shutil.rmtree(td, ignore_errors=True)
+  return rec.result()
+
+
+# -----------------------------------------------------------------------------
+# Record sequences (pg.io.open_sequence / pg.open_jsonl).
+# -----------------------------------------------------------------------------
+
+_RAW_LISTS = [[], ["'a'"], ["''", "'b b'"],
+              ["'x' * 50", "''", r"'\x0b\x0c\x1c \x85 z'" if _UTF8 else r"'\x0b\x0c\x1c z'"],
+              ["'a'", "'a'", "'a'"]]
+_RAW_LISTS_MEM = _RAW_LISTS[:3] + [["'multi\\nline\\n'", r"b'\x00\n\xff'", "''"], _RAW_LISTS[4]]
+_JSON_LISTS = [[], ['1'], [r"'x\ny'", "{'a': (1, 2), 5: None}"],
+               ["float('nan')", '-0.0', 'C05Leaf([1])', "''"],
+               [r"'\r\n \x85'", '[1, [2, [3]]]', 'None', "'n_:5'", '2**70']]
+
+
+class _SeqHistory:
+
+  def __init__(self, kind, ser, exprs, paths):
+    self.kind, self.ser, self.exprs, self.paths = kind, ser, exprs, paths
+    self.model, self.sizes = {}, {}
+    self.lines = ['import tempfile\ntd = tempfile.mkdtemp()'] if any('td' in e for e in exprs) else []
+    self.lists = (_JSON_LISTS if ser == 'jsonl' else
+                  _RAW_LISTS_MEM if kind == 'mem-sequence' else _RAW_LISTS)
+
+  def _osrc(self, i, mode):
+    fn = 'pg.open_jsonl' if self.ser == 'jsonl' else 'pg.io.open_sequence'
+    return f'{fn}({self.exprs[i]}, {mode!r})'
+
+  def _open(self, i, mode):
+    if self.ser == 'jsonl':
+      return pg.open_jsonl(self.paths[i], mode), self._osrc(i, mode)
+    return pg.io.open_sequence(self.paths[i], mode), self._osrc(i, mode)
+
+  def _size(self, recs):
+    if self.ser == 'jsonl':
+      return sum(len(pg.to_json_str(x)) + 1 for x in recs)   # classification only.
+    return sum(len(x) + 1 for x in recs)
+
+  def session(self, mode, i, li):
+    srcs = self.lists[li]
+    recs = [ev(s) for s in srcs]
+    key = self.paths[i]
+    if mode == 'a':
+      cls = 'append-to-existing' if key in self.model else 'append-to-new'
+    elif key not in self.model:
+      cls = 'write-new'
+    else:
+      cls = ('rewrite-with-less-data' if self._size(recs) < self.sizes[key]
+             else 'rewrite-with-more-or-equal-data')
+    self.lines.append(f'with {self._osrc(i, mode)} as f:\n'
+                      + ''.join(f'  f.add({s})\n' for s in srcs) + '  pass')
+    try:
+      f, _ = self._open(i, mode)
+      with f:
+        for x in recs:
+          f.add(x)
+    except Exception as e:  # pylint: disable=broad-except
+      return cls, f'writing raised {type(e).__name__}: {e}'
+    if mode == 'a':
+      self.model[key] = self.model.get(key, []) + recs
+      self.sizes[key] = self.sizes.get(key, 0) + self._size(recs)
+    else:
+      self.model[key] = recs
+      self.sizes[key] = self._size(recs)
+    self._srcs = getattr(self, '_srcs', {})
+    self._srcs[key] = (self._srcs.get(key, []) if mode == 'a' else []) + list(srcs)
+    return cls, None
+
+  def check(self, i):
+    key = self.paths[i]
+    if key not in self.model:
+      return None, ''
+    want = self.model[key]
+    f, osrc = None, ''
+    try:
+      f, osrc = self._open(i, 'r')
+      wl = (f'with {osrc} as f:\n  got = list(iter(f))\n'
+            f'from {_MOD} import assert_same\n'
+            f'assert_same([{", ".join(self._srcs[key])}], got)')
+      with f:
+        got = list(iter(f))
+        n = len(f) if self.kind == 'mem-sequence' else len(got)
+    except Exception as e:  # pylint: disable=broad-except
+      return f'reading {key} raised {type(e).__name__}: {e}', f'with {osrc} as f:\n  list(iter(f))'
+    d = diff_value(want, got)
+    if not d and n != len(want):
+      d = f'len() is {n}, want {len(want)}'
+    return (f'{key}: {d}; got {got!r:.120}' if d else None), wl
+
+  def run(self, rec, hist, key):
+    for step, (mode, i, li) in enumerate(hist):
+      cls, err = self.session(mode, i, li)
+      bad = None
+      if err:
+        bad = (cls, err, '')
+      else:
+        for q in range(len(self.paths)):
+          e, wl = self.check(q)
+          if e:
+            bad = (cls if q == i else 'other-path-untouched-by-last-session', e, wl)
+            break
+      header = 'import pathlib\nimport pyglove as pg\n'
+      if 'C05' in ''.join(self.lines):
+        header += f'from {_MOD} import *\n'
+      rec.case(f'seq.{self.kind}/{bad[0] if bad else cls}', (key, step), bad is None,
+               f'[{self.ser}] {bad[1]}' if bad else '',
+               header + '\n'.join(self.lines) + '\n' + (bad[2] if bad else ''))
+      if bad:
+        return False
+    return True
+
+
+def drv_sequences(tier, seed):
+  rec = Recorder(
+      'C05', 'record sequences: what was added is what is iterated, in order',
+      scope='kinds: in-memory sequence (*.mem), line sequence on std fs, line sequence on /mem/; '
+            'raw str records and pg.open_jsonl values (newlines, unicode line separators, nan, int keys, '
+            'tuples, objects); sessions (w|a) x 2 paths x 5 record lists; ALL histories of <= 2 sessions '
+            '(thorough: <= 3) + seeded longer ones; both paths re-read after every session. Raw records of '
+            'line sequences exclude "\\n" / "\\r" (the format is line based)')
+  td = tempfile.mkdtemp(prefix='c05seq')
+  r = rng(seed, 'c05-seq')
+  cnt = [0]
+
+  def paths_for(kind):
+    cnt[0] += 1
+    u = f'c{cnt[0]}'
+    if kind == 'mem-sequence':
+      rel = [f'/{u}/s.mem', f'/{u}/s2.mem@3']
+      return [f'td + {p!r}' for p in rel], [td + p for p in rel]
+    if kind == 'line-std':
+      rel = [f'/{u}/s.jsonl', f'/{u}/s.jsonl.txt']
+      return [f'td + {p!r}' for p in rel], [td + p for p in rel]
+    ps = [f'/mem/c05s/{u}/s.jsonl', f'/mem/c05s/{u}/t.jsonl']
+    return [repr(p) for p in ps], ps
+
+  try:
+    max_len = 3 if tier == 'thorough' else 2
+    n_rand = 300 if tier == 'thorough' else 30
+    ops = [(m, i, li) for m in ('w', 'a') for i in (0, 1) for li in range(5)]
+    for kind in ('mem-sequence', 'line-std', 'line-mem'):
+      for ser in ('raw', 'jsonl'):
+        hists = []
+        for n in range(1, max_len + 1):
+          hists += list(itertools.product(ops, repeat=n))
+        for _ in range(n_rand):
+          hists.append(tuple(r.choice(ops) for _ in range(r.randint(3, 5))))
+        for h in hists:
+          exprs, paths = paths_for(kind)
+          _SeqHistory(kind, ser, exprs, paths).run(rec, h, (kind, ser, h))
+    # The key of an in-memory sequence is the path, however it is spelled.
+    p = td + '/pl/q.mem'
+
+    def pathlike():
+      with pg.io.open_sequence(pathlib.Path(p), 'w') as f:
+        f.add('r')
+      with pg.io.open_sequence(p, 'r') as f:
+        return list(iter(f))
+    o = outcome(pathlike)
+    rec.case('seq.mem-sequence/written-via-os.PathLike-read-via-str', (p,), o == ('ok', ['r']), f'{o}',
+             'import pathlib, tempfile\nimport pyglove as pg\np = tempfile.mkdtemp() + "/q.mem"\n'
+             "with pg.io.open_sequence(pathlib.Path(p), 'w') as f:\n  f.add('r')\n"
+             "with pg.io.open_sequence(p, 'r') as f:\n  assert list(iter(f)) == ['r']\n")
+    # a bare name (no directory part).
+    cwd = os.getcwd()
+    os.chdir(td)
+    try:
+      for name in ('c05bare.mem', 'c05bare.jsonl'):
+        def bare(name=name):
+          with pg.open_jsonl(name, 'w') as f:
+            f.add({'a': 1})
+          with pg.open_jsonl(name, 'r') as f:
+            return list(iter(f))
+        o = outcome(bare)
+        rec.case('seq/relative-path-without-directory', (name,),
+                 o[0] == 'ok' and diff_value([{'a': 1}], o[1]) == '', f'{o}',
+                 'import os, tempfile\nimport pyglove as pg\nos.chdir(tempfile.mkdtemp())\n'
+                 f"with pg.open_jsonl({name!r}, 'w') as f:\n  f.add(1)\n"
+                 f"with pg.open_jsonl({name!r}, 'r') as f:\n  assert list(iter(f)) == [1]\n")
+    finally:
+      os.chdir(cwd)
+  finally:
+    shutil.rmtree(td, ignore_errors=True)
+  return rec.result()
+
+
+# -----------------------------------------------------------------------------
+# pickle and copy.deepcopy.
+# -----------------------------------------------------------------------------
+
+_COPY_METHODS = {
+    'deepcopy': 'r = copy.deepcopy(v)',
+    'pickle': 'r = pickle.loads(pickle.dumps(v))',
+    'pickle-protocol-2': 'r = pickle.loads(pickle.dumps(v, protocol=2))',
+    'pickle-protocol-5': 'r = pickle.loads(pickle.dumps(v, protocol=5))',
+}
+
+FLAGGED = [
+    'pg.Dict(a=1, sealed=True)', 'pg.List([1], sealed=True)',
+    'pg.Dict(a=C05Leaf.partial(), allow_partial=True)',
+    'pg.List([C05Leaf.partial()], allow_partial=True)',
+    'pg.List([1], accessor_writable=False)', 'pg.Dict(a=[1], accessor_writable=False)',
+    'C05Leaf(1, sealed=True)', 'C05Typed.partial(l=[1])', 'C05Leaf([pg.Dict(a=1)], sealed=True)',
+    "pg.List([1, 2], value_spec=pg.typing.List(pg.typing.Int(), max_size=3))",
+    "pg.Dict(p=2, value_spec=pg.typing.Dict([('p', pg.typing.Int(default=1)), ('q', pg.typing.Str().noneable())]))",
+    "pg.Dict(x=pg.List([1], value_spec=pg.typing.List(pg.typing.Int())))",
+]
+
+
+def _mutable_ids(v, acc=None):
+  acc = set() if acc is None else acc
+  if isinstance(v, pg.Symbolic):
+    acc.add(id(v))
+    for _, c in v.sym_items():
+      _mutable_ids(c, acc)
+  elif isinstance(v, (list, tuple)):
+    if isinstance(v, list):
+      acc.add(id(v))
+    for c in v:
+      _mutable_ids(c, acc)
+  elif isinstance(v, dict):
+    acc.add(id(v))
+    for c in v.values():
+      _mutable_ids(c, acc)
+  return acc
+
+
+def _flags(v):
+  out = []
+  for n in sym_nodes(v):
+    out.append((type(n).__name__, str(n.sym_path), n.allow_partial,
+                getattr(n, 'accessor_writable', None)))
+  return out
+
+
+def _sealed(v):
+  return [(type(n).__name__, str(n.sym_path), n.sym_sealed) for n in sym_nodes(v)]
+
+
+def copy_check(src, method):
+  """-> (ok, kind, message, witness)."""
+  code = _COPY_METHODS[method]
+  base = f'import copy, pickle\n{_header(src)}v = {src}\n{code}\n'
+  helper = f'from {_MOD} import *\n'
+  v, fresh = ev(src), ev(src)
+  env = dict(_ENV, v=v, copy=copy, pickle=pickle)
+  try:
+    exec(code, env)  # pylint: disable=exec-used
+  except Exception as e:  # pylint: disable=broad-except
+    return False, 'exc', f'{type(e).__name__}: {e}', base
+  r = env['r']
+  deep = method == 'deepcopy'
+  d = diff_value(v, r, check_spec=deep)
+  if not d and deep and isinstance(v, (pg.List, pg.Dict)) and v.value_spec != r.value_spec:
+    d = f'root value_spec {v.value_spec!r} -> {r.value_spec!r}'
+  if d:
+    return False, 'value', d, base + helper + f'assert_same(v, r, check_spec={deep})\n' + (
+        'assert getattr(v, "value_spec", None) == getattr(r, "value_spec", None)\n' if deep else '')
+  if type(r) is not type(v):
+    return (False, 'type', f'type {type(v).__name__} -> {type(r).__name__}',
+            base + 'assert type(r) is type(v), type(r)\n')
+  f = features(v)
+  if 'nan' not in f and 'code-function' not in f:
+    if not outcome(pg.eq, v, r) == ('ok', True):
+      return False, 'eq', 'pg.eq(v, r) is not True', base + 'assert pg.eq(v, r)\n'
+    hv = outcome(pg.hash, v)
+    if hv[0] == 'ok' and outcome(pg.hash, r) != hv:
+      return False, 'hash', 'pg.hash differs', base + 'assert pg.hash(v) == pg.hash(r)\n'
+  te = tree_errors(r)
+  if te:
+    return False, 'tree', '; '.join(te[:3]), base + helper + 'assert_wellformed(r)\n'
+  if _mutable_ids(v) & _mutable_ids(r):
+    return (False, 'aliasing', 'copy shares a mutable node with the original',
+            base + helper + 'assert not (_mutable_ids(v) & _mutable_ids(r))\n')
+  if _flags(v) != _flags(r):
+    return (False, 'flags', f'allow_partial/accessor_writable {_flags(v)} -> {_flags(r)}',
+            base + helper + 'assert _flags(v) == _flags(r), (_flags(v), _flags(r))\n')
+  if not deep and _sealed(v) != _sealed(r):
+    return (False, 'sealed', f'sealed {_sealed(v)} -> {_sealed(r)}',
+            base + helper + 'assert _sealed(v) == _sealed(r), (_sealed(v), _sealed(r))\n')
+  d = diff_value(fresh, v)
+  if d:
+    return (False, 'original-mutated', d, base + helper + f'assert_same({src}, v)\n')
+  if isinstance(v, (pg.typing.ValueSpec, pg.typing.Field, pg.typing.Schema, pg.typing.KeySpec)):
+    d = _spec_behaviour_diff(v, r, (False,))
+    if d:
+      return False, 'spec-behaviour', d, base + helper + 'assert_same_spec(v, r)\n'
+  return True, '', '', base
+
+
+def drv_pickle_deepcopy(tier, seed):
+  rec = Recorder(
+      'C05', 'pickle and copy.deepcopy reproduce the value',
+      scope='value universe (all leaves and depth-1 shapes, keys, tuple corner list, seeded deeper values), '
+            'typed objects, flagged containers (sealed / partial / accessor_writable / value_spec), value specs, '
+            'key specs, schemas, geno specs, DNAs; methods deepcopy, pickle default (+ protocols 2 and 5 in '
+            'thorough); oracle: structural equality, exact type, pg.eq, pg.hash, well-formed tree, no shared '
+            'mutable node, flags, nested value specs (deepcopy: also the root value_spec), original untouched, '
+            'spec behaviour. DNA deepcopy only with cloneable metadata (non-cloneable metadata is documented '
+            'to be dropped); code-marshalled functions (lambdas) are excluded from pickle')
+  r = rng(seed, 'c05-copy')
+  uni = value_universe('quick', seed)
+  shallow = [(l, s) for l, s in uni if '>' not in l]
+  deeper = [(l, s) for l, s in uni if '>' in l]
+  deeper = deeper if tier == 'thorough' else r.sample(deeper, 120)
+  if tier != 'thorough':
+    shallow = shallow[::2] + [(l, s) for l, s in shallow if l == 'tuple-ish']
+  items = [(l.split('/')[0].split('>')[0], s) for l, s in shallow + deeper]
+  items += [('typed', s) for s in typed_universe('quick', seed)[:: (1 if tier == 'thorough' else 3)]]
+  items += [('flagged', s) for s in FLAGGED + PARTIALS]
+  specs = [s for _, s in SPECS] + KEY_SPECS + SCHEMAS
+  items += [('spec', s) for s in (specs if tier == 'thorough' else specs[::3])]
+  geno = GENO_POINTS + GENO_FROM_HYPER + HYPER_VALUES
+  items += [('geno', s) for s in (geno if tier == 'thorough' else geno[::2]) if constructible(s)]
+  items += [('dna', s) for l, s in DNA_SHAPES if constructible(s)]
+  methods = (list(_COPY_METHODS) if tier == 'thorough' else ['deepcopy', 'pickle'])
+  seen = set()
+  for label, src in items:
+    if src in seen:
+      continue
+    seen.add(src)
+    v = ev(src)
+    f = features(v)
+    for method in methods:
+      if method != 'deepcopy' and 'code-function' in f:
+        continue
+      if method == 'deepcopy' and label == 'dna' and 'metadata' in src and 'cloneable=True' not in src:
+        continue
+      if method == 'deepcopy' and "set_metadata('n', 2)" in src:
+        continue
+      fam = 'deepcopy' if method == 'deepcopy' else 'pickle'
+      try:
+        ok, kind, msg, wit = copy_check(src, method)
+      except Exception as e:  # pylint: disable=broad-except
+        ok, kind, msg, wit = False, 'harness', f'{type(e).__name__}: {e}', src
+      rec.case(f'{fam}/{label}' + (f'/{kind}' if kind in ('flags', 'sealed', 'aliasing') else ''),
+               (src, method), ok, f'[{method}: {kind}] {msg}', wit)
+  return rec.result()
+
+
+DRIVERS = [drv_json_values, drv_typed_objects, drv_specs, drv_geno_dna,
+           drv_file_systems, drv_sequences, drv_pickle_deepcopy]
+
+
+def replay(rec):
+  """Re-executes rec['witness']; returns (ok, message)."""
+  cwd = os.getcwd()
+  try:
+    exec(rec['witness'], {'__name__': '__c05_witness__'})  # pylint: disable=exec-used
+    return True, 'witness passes'
+  except Exception as e:  # pylint: disable=broad-except
+    return False, f'{type(e).__name__}: {e}'
+  finally:
+    os.chdir(cwd)
